@@ -121,12 +121,19 @@ class World(object):
         seams.CTX.node = None
         if self.tz:
             seams.set_tz(self.tz)
+        # every temporary file of the run (the harness's and the ones pysaml2 writes for the tool, some of
+        # which it never removes) lives in the per-run scratch directory
+        import tempfile
+        self._old_tempdir = tempfile.tempdir
+        tempfile.tempdir = self.tmpdir()
         return self
 
     def __exit__(self, *a):
         seams.CTX.world, seams.CTX.node = self._prev
         if self.tz:
             seams.set_tz("UTC")
+        import tempfile
+        tempfile.tempdir = self._old_tempdir
         if self._tmp is not None:
             import shutil
             shutil.rmtree(self._tmp, ignore_errors=True)
